@@ -224,6 +224,8 @@ UnaryChecks(t, v, w, k) ==
         Chk("show", "ToString", t, <<"println(show(" \o L \o "))">>, s.o \o <<"<" \o s.v \o ">">>),
         Chk("concat", "ToString", t, <<"println(\"x\" .. " \o L \o ")">>, s.o \o <<"x" \o s.v>>),
         Chk("app-show", "ToString", t, <<"println(app(show, " \o L \o "))">>, s.o \o <<"<" \o s.v \o ">">>),
+        \* a closure whose own type mentions no type parameter at all, created inside a generic function
+        Chk("later0", "ToString", t, <<"println(later0(" \o L \o ")())">>, s.o \o <<"<" \o s.v \o ">">>),
         Chk("app-id", "none", t, <<"println(app(id, " \o L \o "))">>, pv),
         Chk("showall", "ToString", t, <<"println(showall([" \o L \o ", " \o M \o "]))">>,
             LET s2 == Str(t, w) IN s.o \o s2.o \o <<"<" \o s.v \o "><" \o s2.v \o ">">>),
